@@ -176,10 +176,15 @@ class Route(Generic[Interface]):
         match = self.re_pattern.fullmatch(path)
         if match is None:
             return False, {}
-        return True, {
-            name: self.path_convertors[name].to_python(value)
-            for name, value in match.groupdict().items()
-        }
+        try:
+            return True, {
+                name: self.path_convertors[name].to_python(value)
+                for name, value in match.groupdict().items()
+            }
+        except (ValueError, ArithmeticError):
+            # The text fits the convertor's pattern but is not a value of its type
+            # (2021-13-45, an integer beyond the digit limit): not this route.
+            return False, {}
 
 
 @mypyc_attr(allow_interpreted_subclasses=True)
